@@ -757,6 +757,9 @@ def oracle_forest(d, ex, cur, t, p, name, e):
             hm = g.nodes[m].get('tHitting')
             if m not in d._vp_seeds.get(id(q), set()) and (hm is None or not hm < t):
                 return ('forest', f"node {n} hit at {t} by {m}, whose own hitting time is {hm}")
+        elif len(ex.cms) == 1 and g.nodes[n].get('tHitting') != first[(id(q), n)]:
+            # infected again (SIS and its kin): the recorded hitting time stays that of the first infection
+            return ('forest', f"node {n} was first infected at {first[(id(q), n)]}; after its infection at {t} its hitting time reads {g.nodes[n].get('tHitting')}")
     return None
 
 
